@@ -17,7 +17,12 @@ VERIF = os.path.dirname(os.path.dirname(os.path.abspath(__file__)))
 _src_cache = {}
 
 
+_virtual = {}   # pseudo path -> SourceFile built from an item-level macro (T-MACRO-ITEM)
+
+
 def source(relpath):
+    if relpath in _virtual:
+        return _virtual[relpath]
     p = os.path.join(REPO, relpath)
     key = (p, os.path.getmtime(p)) if os.path.exists(p) else None
     if key is None:
@@ -570,7 +575,7 @@ class Piece:
             self._add(toks[kb].end, toks[kb].end, "\n" + fs.body_start + "\n", "insert")
         # loops
         lps = loops_in(toks, kb, k1)
-        if self.unit.vacuity:
+        if self.unit.vacuity and "external_body" not in (fs.attrs or ""):
             self._add(toks[kb].end, toks[kb].end, f"\nproof {{ assert(false); }} //@VACUITY.entry.{fn.name}\n", "insert", order=-5)
             isolated = "loop_isolation(false)" not in (fs.attrs or "")
             if isolated:
@@ -990,6 +995,30 @@ class Unit:
             raise Undecided(f"macro {name}: more than one arm")
         body = sf.text[toks[bo].end:toks[bc].start]
         self.macros[name] = (params, body)
+
+    def macro_items(self, relpath, name, args):
+        """T-MACRO-ITEM: an item-level invocation `name!(args);` of one of the repository's single-arm macros is
+        replaced by the macro's own body text with the metavariables substituted by the invocation's arguments.
+        Returns a pseudo path whose items can be taken like those of a file.  The invocation must exist."""
+        self.macro(relpath, name)
+        params, body = self.macros.pop(name)
+        sf = source(relpath)
+        inv = re.compile(r"(?m)^\s*" + re.escape(name) + r"!\(\s*" + r"\s*,\s*".join(re.escape(a) for a in args) + r"\s*\);")
+        if len(inv.findall(sf.text)) != 1:
+            raise Undecided(f"macro {name}: invocation with ({', '.join(args)}) not found exactly once in {relpath}")
+        if len(params) != len(args):
+            raise Undecided(f"macro {name}: {len(params)} parameters, {len(args)} arguments")
+        b = body
+        for pname, rep in sorted(zip(params, args), key=lambda x: -len(x[0])):
+            b = re.sub(r"\$" + pname + r"\b", lambda m: rep, b)
+        if "$" in b:
+            raise Undecided(f"macro {name}: unsubstituted metavariable")
+        pseudo = f"{relpath}#{name}!({','.join(args)})"
+        _virtual[pseudo] = SourceFile(pseudo, b)
+        self.macro_items_log = getattr(self, "macro_items_log", []) + [
+            {"rule": "T-MACRO-ITEM", "file": relpath, "item": f"{name}!({', '.join(args)})",
+             "note": "item-level macro invocation replaced by the macro's own body with its metavariables substituted"}]
+        return pseudo
 
     def macro_as_fn(self, relpath, name, module, header, subst, call, props=None):
         """T-MACRO-FN: expand a statement macro into a call of a helper function whose body is the macro's own
